@@ -56,7 +56,7 @@ MANIFEST = {
 }
 
 NAMES = ["A", "B", "C", "D", "E"]
-SEQS = {"A": "ACGTRN-AC", "B": "CCGYAN?GT", "C": "GATTAC-KA", "D": "TAGSWMBDC", "E": "AMCGTVHAG"}
+SEQS = {"A": "ACGURN-AC", "B": "CcGYAN?Gu", "C": "GATTAC-KA", "D": "TAGSWMBDC", "E": "AMCGTVHAG"}
 
 
 def _clades(node, nodes):
